@@ -57,6 +57,25 @@ theorem ctor_failure_releases (n k : Nat) (h : (ctor n (some k)).2 = true) : (ct
     · rfl
     · next h1 => simp only [h1, if_false] at h; exact tail n 2 h
 
+/-- no call fails: nothing is raised, the three descriptors stay open for the reader -/
+theorem ctor_ok (n : Nat) : ctor n none = (3, false) := by
+  have tail : ∀ (m pos : Nat), ctorRun (List.replicate m CCall.addWatch) pos none 3 = (3, false) := by
+    intro m
+    induction m with
+    | zero => intro pos; simp [ctorRun]
+    | succ m ih => intro pos; simp only [List.replicate_succ, ctorRun]; simp [CCall.opens, ih]
+  unfold ctor ctorCalls
+  simp only [List.cons_append, List.nil_append, ctorRun]
+  simp [CCall.opens, tail]
+
+/-- an entry that has vanished (ENOENT / ENOTDIR): whether the constructor raises (calls 0-2) or skips the entry (a
+    sub-directory's add-watch), a raise leaves no descriptor open -/
+theorem ctor_vanished_releases (n k : Nat) (h : (ctorTol n k).2 = true) : (ctorTol n k).1 = 0 := by
+  unfold ctorTol at *
+  split
+  · next h3 => simp [h3, ctor_ok] at h
+  · next h3 => simp only [h3, if_false] at h; exact ctor_failure_releases n k h
+
 /-- the constructor raises exactly when one of its calls fails -/
 theorem ctor_raises_iff (n k : Nat) : (ctor n (some k)).2 = true ↔ k < n + 2 := by
   have tail : ∀ (m pos o : Nat), (ctorRun (List.replicate m CCall.addWatch) pos (some k) o).2 = true ↔ (pos ≤ k ∧ k < pos + m) := by
